@@ -313,6 +313,12 @@ func c14R2(r *Report) {
 		r.Fail("R2", "maybeWebseed/reservation", mw.Pos(), "maybeWebseed no longer reserves blocks")
 		return
 	}
+	// a loop counted in blocks (for i := 0; i < chunks; i++ with chunks = ceil(l / ChunkSize)) covers l bytes
+	if chunk, okc := chunkSizeConst(p); okc && loopBound != nil {
+		if q, base, add, _ := c09DivForm(chunk)(loopBound, 0); q != nil && add == chunk-1 && base != nil {
+			loopBound = stripIntConv(base)
+		}
+	}
 	isFetch := func(in ssa.Instruction) bool {
 		g, ok := in.(*ssa.Go)
 		if !ok {
